@@ -309,6 +309,11 @@ class SchemaValidator:
 
         known_param_names = [arg.python_name for arg in args]
 
+        # Resolvers are called as `resolver(root, context, info, **arguments)`.
+        leading_positional = [
+            p for p in params if p.kind in POSITIONAL_PARAM_KINDS
+        ][:3]
+
         for arg in args:
             try:
                 param = sig.parameters[arg.python_name]
@@ -324,6 +329,12 @@ class SchemaValidator:
                     self.add_error(
                         'Resolver parameter for argument "%s" on "%s" '
                         "must not be positional only" % (arg.name, path,)
+                    )
+                elif param in leading_positional:
+                    self.add_error(
+                        'Resolver parameter for argument "%s" on "%s" '
+                        "cannot be one of the first 3 positional parameters"
+                        % (arg.name, path,)
                     )
                 elif (
                     param.default is Parameter.empty
